@@ -866,3 +866,27 @@ package channel
 //@   modifies *
 //@   ensures result == nil ==> p.ChallengeDuration != 0 && len(p.Parts) >= MinNumParts && len(p.Parts) <= MaxNumParts && p.App != nil && p.Nonce != nil &&
 //@           bytelen(val(p.Nonce)) <= MaxNonceLen && p.id != Zero && forall i int :: 0 <= i && i < len(p.Parts) ==> len(p.Parts[i]) > 0 && partKeysOK(p.Parts[i])
+
+// A channel source (machine or restored data) as the persister sees it: pure observers.
+//@ ghost func srcParams(s Source) *Params
+//@ ghost func srcID(s Source) ID
+//@ ghost func srcIdx(s Source) Index
+//@ ghost func srcPhase(s Source) Phase
+//@ interface Source
+//@   method ID
+//@     requires recv != nil
+//@     ensures result == srcID(recv)
+//@   method Idx
+//@     requires recv != nil
+//@     ensures result == srcIdx(recv)
+//@   method Params
+//@     requires recv != nil
+//@     ensures result == srcParams(recv) && result != nil
+//@   method Phase
+//@     requires recv != nil
+//@     ensures result == srcPhase(recv)
+//@   method StagingTX
+//@     requires recv != nil
+//@   method CurrentTX
+//@     requires recv != nil
+//@ end
